@@ -39,6 +39,8 @@ pub struct Lang {
 #[derive(Clone, Debug)]
 pub struct Vocab {
     pub rated: Vec<Currency>,
+    /// every configured currency by lower-case key (rate = NaN when it has none)
+    pub currencies: BTreeMap<String, Currency>,
     /// alias (lower case, as configured) -> currency key
     pub currency_alias: BTreeMap<String, String>,
     pub all_currency_keys: BTreeSet<String>,
@@ -87,6 +89,21 @@ fn load() -> Vocab {
         }
     }
     rated.sort_by(|a, b| a.key.cmp(&b.key));
+    let mut all_cur = BTreeMap::new();
+    for (k, c) in cur_by_key.iter() {
+        all_cur.insert(
+            k.clone(),
+            Currency {
+                code: c["code"].as_str().unwrap_or("").to_string(),
+                key: k.clone(),
+                symbol: c["symbol"].as_str().unwrap_or("").to_string(),
+                on_left: c["symbolOnLeft"].as_bool().unwrap_or(false),
+                space: c["spaceBetweenAmountAndSymbol"].as_bool().unwrap_or(false),
+                digits: c["decimalDigits"].as_u64().unwrap_or(2) as u8,
+                rate: rated.iter().find(|r| r.key == *k).map(|r| r.rate).unwrap_or(f64::NAN),
+            },
+        );
+    }
     let mut currency_alias = BTreeMap::new();
     for (k, v) in j["currency_alias"].as_object().cloned().unwrap_or_default() {
         currency_alias.insert(k.clone(), v.as_str().unwrap_or("").to_string());
@@ -180,7 +197,7 @@ fn load() -> Vocab {
     for w in ["am", "pm", "date", "unix", "unixtime", "unixtimestamp", "hex", "hexadecimal", "octal", "binary", "decimal", "of", "on", "off", "is", "what", "at", "to", "in", "into", "as", "arası", "gmt", "k", "m", "g", "t", "p", "z", "y"] {
         reserved.insert(w.to_string());
     }
-    Vocab { rated, currency_alias, all_currency_keys, zones, langs, units, global_alias, reserved }
+    Vocab { rated, currencies: all_cur, currency_alias, all_currency_keys, zones, langs, units, global_alias, reserved }
 }
 
 impl Vocab {
